@@ -1,6 +1,7 @@
 package props
 
 import (
+	"go/token"
 	"strings"
 
 	"golang.org/x/tools/go/ssa"
@@ -25,6 +26,7 @@ func init() {
 const vrfPkg = "repo/pkg/vrf."
 
 func hw(arg string) string { return "call<(hash.Hash).Write>(self, " + arg + ")" }
+
 // glob is the pattern of a domain-separation byte string at its use site. The package variables holding them are
 // folded into their values by the term builder (ana.ConstGlobal: written once, by the initialiser, from constants),
 // so the rule sees the bytes that are hashed, whatever the variables or constants are called.
@@ -102,6 +104,9 @@ func c18Constants(c *Ctx) {
 	okS := true
 	for n, v := range sizes {
 		nc, _ := pk.Members[n].(*ssa.NamedConst)
+		if nc == nil && !token.IsExported(n) {
+			continue // an unexported constant may be renamed or inlined: its value is part of every term that uses it
+		}
 		if nc == nil || nc.Value.Int64() != v {
 			okS = false
 		}
